@@ -77,14 +77,26 @@ def generate(pid, prop, reg):
     obligations, unbound, functions, dropped, trusted = [], [], [], [], set()
     used_lemmas = set(getattr(prop, 'LEMMAS', []))
     interp = None
-    for key in prop.FUNCTIONS:
+    # modular verification: a property relies on the contracts of everything its functions call, so those callees are verified
+    # in the same check (transitively).  CLOSURE = 'full' (default) | 'frame' (callees outside FUNCTIONS contribute only their
+    # syntactic frame obligation: determinism properties) | 'none'
+    closure = getattr(prop, 'CLOSURE', 'full')
+    work = list(prop.FUNCTIONS)
+    seen = set(work)
+    while work:
+        key = work.pop(0)
         c = reg[key]
         interp = Interp(reg, pid)
         t0 = time.time()
+        frame_only = closure == 'frame' and key not in prop.FUNCTIONS
         try:
-            obs = interp.verify(c)
+            obs = interp.frame_only(c) if frame_only else interp.verify(c)
         except EngineError as e:
             unbound.append({'function': key, 'reason': str(e)})
+            if closure != 'none':
+                for k2 in sorted(interp.applied - seen):
+                    seen.add(k2)
+                    work.append(k2)
             # syntactic frame obligations do not depend on the symbolic execution that failed: keep them
             for ob in interp.obligations:
                 if ob.name.endswith('/frame.pure'):
@@ -102,6 +114,10 @@ def generate(pid, prop, reg):
                           'obligations': len(obs), 'vcgen_s': round(time.time() - t0, 3)})
         dropped.extend(interp.dropped)
         trusted |= interp.trusted
+        if closure != 'none':
+            for k2 in sorted(interp.applied - seen):
+                seen.add(k2)
+                work.append(k2)
     if hasattr(prop, 'extra_obligations'):
         interp = Interp(reg, pid)
         for ob in prop.extra_obligations(interp, reg):
